@@ -4,6 +4,8 @@ Monitor: reference evaluation (refeval over refwalk) of the same token list; the
 byte sequence each labelled action produced (stdout, -fprint* files, recorder log for -exec)."""
 import os
 
+import sys
+
 import common
 import exprgen
 import refeval
@@ -121,7 +123,9 @@ def o_misc(rng, g):
 
 OPTIONS = [o_depthopt, o_misc, o_misc]
 
-STRATA = ["random", "random", "random", "noaction", "nested_only", "negated_action", "unreachable_and",
+sys.setrecursionlimit(20000)          # the reference parser/evaluator recurse once per nesting level (up to 200 here)
+
+STRATA = ["random", "random", "random", "noaction", "nested_only", "negated_action", "unreachable_and", "paren_operand", "nest_at_limit",
           "unreachable_or", "prune_quit_only", "quit_first", "quit_middle", "quit_last", "quit_in_not", "quit_in_or",
           "quit_in_list", "dead_delete", "deep"]
 
@@ -179,7 +183,18 @@ def gen_case(rng, cid, maxdepth):
             lambda: ("or", [("and", [P("-false"), P("-delete")]), noact.node(1)]),
             lambda: ("list", [a_dead_delete(rng, g), g.node(1)]),
         ])()
-    toks = exprgen.render(ast, rng)
+    toks = exprgen.render(ast, rng) if stratum not in ("paren_operand", "nest_at_limit") else None
+    if stratum == "paren_operand":
+        # a group whose last word is an operand spelled like a parenthesis: ( ... -name '(' ) is a well-formed group
+        inner = rng.choice([["-name", "("], ["-type", "f", "-o", "-name", "("], ["-name", "*a*", "-o", "-path", "("], ["!", "-name", ")", "-name", "("],
+                            ["-name", ")"], ["-type", "d", "-printf", "D:%p\\n", "-o", "-name", "("]])
+        toks = rng.choice([["("] + inner + [")", "-o", "-printf", "N:%p\\n"], ["!", "("] + inner + [")", "-printf", "M:%p\\n"],
+                           ["(", "("] + inner + [")", ")", "-o", "-name", "*", "-printf", "K:%p\\n"]])
+    if stratum == "nest_at_limit":
+        # parentheses nested as deep as the parser allows (200) and one less: still an ordinary expression
+        k_ = rng.choice([199, 200, 200, 150])
+        body = rng.choice([["-name", "*a*"], ["-type", "f"], ["-true"]])
+        toks = rng.choice([["("] * k_ + body + [")"] * k_ + ["-printf", "Z:%p\\n"], ["!", "("] * (k_ // 1) + body + [")"] * k_ + ["-printf", "Y:%p\\n"]])
     # one starting point, or the same tree walked twice / a second starting point (what -quit stops includes later starting points)
     roots = ["r"] if rng.random() < 0.75 else rng.choice([["r", "r"], ["r", "r", "r"], ["r", "r/."], ["./r", "r"]])
     return {"id": cid, "stratum": stratum, "toks": ["-sorted"] + toks, "files": g.files, "has_plus": g.has_plus, "roots": roots,
